@@ -483,7 +483,7 @@ func c01OrderPrograms() []string {
 	add("for i := range (n \"start\" 0) (n \"stop\" 2) (n \"step\" 1)\n    print i\nend\n")
 	add("x := (n \"1\" 1) == (n \"2\" 1) and (b \"3\" false) or (n \"4\" 2) < (n \"5\" 3)\nprint x\n")
 	// deep equality, also through any
-	vals := []string{"1", "\"a\"", "true", "[1 2]", "[1 3]", "[]", "[[1] [2]]", "{a:1}", "{a:1 b:2}", "{b:2 a:1}", "{}", "[1 \"a\"]", "[[1] \"a\"]", "{a:[1] b:2}", "[{a:1}]"}
+	vals := []string{"1", "\"a\"", "true", "[1 2]", "[1 3]", "[]", "[[1] [2]]", "{a:1}", "{b:1}", "{a:1 b:2}", "{b:2 a:1}", "{a:1 c:2}", "{a:3 c:2}", "{}", "[1 \"a\"]", "[[1] \"a\"]", "{a:[1] b:2}", "[{a:1}]"}
 	for _, v := range vals {
 		for _, w := range vals {
 			add("x:any\ny:any\nx = " + v + "\ny = " + w + "\nprint (x == y) (x != y) (typeof x) (typeof y)\n")
@@ -653,6 +653,12 @@ func c02Fixed() []string {
 		"e:[]num\nx := e * -1\nprint x\n",
 		"e:[]num\nx := e * 0.5\nprint x\n",
 		"a := [1 2 3]\nx := a * 0\ny := a * 1\nz := a * 2\nprint x y z (len z)\n",
+		// repeated arrays that hold maps: a key added to or deleted from one copy, or the original, then every copy is
+		// printed, ranged over, compared, copied again
+		"m := {a:1}\narr := [m] * 2\narr[0].b = 2\nprint arr m\nprint (sprint arr[1]) (len arr[1])\n",
+		"m := {a:1 b:2}\narr := [m] * 3\ndel arr[1] \"a\"\nprint arr m\nm.c = 3\nprint arr m\nfor k := range arr[2]\n    print k arr[2][k]\nend\n",
+		"m := {a:1}\narr := [m [m]] * 2\nm.z = 9\nprint arr m\nt := arr[1].([]{}num)\nt[0].y = 8\nprint arr m (arr[0] == arr[2])\nagain := arr * 2\nprint again\n",
+		"mm := {in:{a:1}}\narr := [mm] * 2\narr[0].in.b = 2\narr[1].other = {c:3}\nprint arr mm\nprint (join [(sprint arr[0]) (sprint arr[1])] \"|\")\ntest arr[0] arr[1]\n",
 		// domain errors of the graphics built-ins (modelled glue: argument counts, ranges, property types)
 		"clear \"red\" \"blue\"\n", "clear\nclear \"red\"\nprint \"ok\"\n",
 		"print (hsl 361)\n", "print (hsl -1)\n", "print (hsl 10 101)\n", "print (hsl 10 50 -1)\n", "print (hsl 10 50 50 101)\n", "print (hsl 1 2 3 4 5)\n", "x := hsl\nprint x\n",
